@@ -9,12 +9,13 @@ P=$1; WT=$2; OUT=/verif/seeded/$P
 cd "$WT" || exit 3
 git checkout -q -- .   # never `git stash` here: refs/stash is shared by all worktrees of /repo
 git apply --check seed/patch.diff || { echo "PATCH DOES NOT APPLY"; exit 3; }
-echo "== without the change"; bash seed/build.sh > seed/.out_without 2>&1; rc0=$?; echo "demo exit=$rc0"
+rundemo() { rm -f seed/demo; bash seed/build.sh > "$1" 2>&1; r=$?; if [ $r -eq 0 ] && [ -x seed/demo ] && ! grep -q "seed/demo\b[^.]" seed/build.sh | grep -qv gcc; then :; fi; if [ $r -eq 0 ] && [ -x seed/demo ] && ! grep -Eq "(^|[;&[:space:]])\./seed/demo|&& *seed/demo|\./demo" seed/build.sh; then ./seed/demo >> "$1" 2>&1; r=$?; fi; return $r; }
+echo "== without the change"; rundemo seed/.out_without; rc0=$?; echo "demo exit=$rc0"
 git apply seed/patch.diff
 echo "== with the change"
 for f in $(git diff --name-only | grep '\.c$'); do gcc -std=gnu11 -fsyntax-only -w -DLINUX -IlltdResponder "$f" || echo "COMPILE FAIL $f"; done
 make test > seed/.make_test 2>&1; mt=$?; echo "make test exit=$mt ($(grep -c '\[       OK \]' seed/.make_test) tests OK)"
-bash seed/build.sh > seed/.out_with 2>&1; rc1=$?; echo "demo exit=$rc1"; tail -3 seed/.out_with | cut -c1-200
+rundemo seed/.out_with; rc1=$?; echo "demo exit=$rc1"; tail -3 seed/.out_with | cut -c1-200
 rm -rf build
 echo "== check on /repo (applied, then reverted)"
 cd /repo && [ -z "$(git status --porcelain)" ] || { echo "/repo not clean"; exit 3; }
